@@ -983,7 +983,11 @@ class Interp:
         out = []
         for x in elts:
             if isinstance(x, ast.Starred):
-                out.extend(self.iterate(self.eval(x.value, env)))
+                v = self.eval(x.value, env)
+                if hasattr(v, "as_star_args"):  # *seq of SYMBOLIC length: handed over as ONE StarArgs marker (only models accept it)
+                    out.append(v.as_star_args())
+                else:
+                    out.extend(self.iterate(v))
             else:
                 out.append(self.eval(x, env))
         return out
